@@ -72,7 +72,9 @@ def run(ctx):
             depth, slots = 0, [0]
             for j, ln in enumerate(lines):
                 depth += ln.count("{") - ln.count("}")
-                if depth == 0:
+                # only where the address is even before and after the insertion anyway (the inserted block forces an even
+                # address; between two odd-sized strings it would move every following instruction to an odd one)
+                if depth == 0 and (ln.strip() == ".even" or j + 1 == len(lines) or lines[j + 1].strip() == ".even"):
                     slots.append(j + 1)
             lines.insert(rng.choice(slots), ".even\n.include \"inc.mac\"\n.even")
             texts[0] = "\n".join(lines)
